@@ -28,10 +28,10 @@ import (
 // observation = (seq fresh conc ledger)   per request (class rendering): class 1 value read, 400 / 0 error, -1 panic
 
 type entValue struct {
-	XMLName xml.Name `json:"-" xml:"v"`
-	I       int64    `json:"i" xml:"i"`
-	S       string   `json:"s" xml:"s"`
-	B       bool     `json:"b" xml:"b"`
+	XMLName xml.Name  `json:"-" xml:"v"`
+	I       int64     `json:"i" xml:"i"`
+	S       string    `json:"s" xml:"s"`
+	B       bool      `json:"b" xml:"b"`
 	Items   []entItem `json:"items" xml:"items>item"`
 }
 type entItem struct {
